@@ -56,6 +56,10 @@ CHECKS = {
    text="Generated close scenarios: constructor (all 24) x transport (inproc, tcp, ipc, ws, tls+tcp, wss) x role x 0-2 contexts x activities in progress at Close (Recv blocked on the socket and on contexts, Sends blocked against a back-pressuring scripted peer or no peer with a write queue of 1, an asynchronous dialer redialling an absent listener, a raw peer stuck before the handshake on the listener and on the dialer side, the peer closing concurrently, Device forwarders running), optionally a context closed first. Oracle: the calls verified blocked return within 3 s with ErrClosed (or a queued message), Close returns within 3 s, every later call (Send, Recv, Dial, Listen, OpenContext, Close, option calls, context calls) returns within 3 s with a closed/unsupported error, the silent peer's connection is closed, and after all sockets are closed the goroutine census shows no library frame, the pipe-id allocator and the socket's pipe list (verif hook) are back to the baseline and the address can be bound again. A second property closes one context/dialer/listener/pipe and requires siblings to keep working.",
    note="Schedules are sampled: Close is issued ~40 ms after the activities started, the exact interleaving is not controlled. Timers are observed only through their effects. Known finding: the dialer-side silent-server handshake leak (excluded from generation while listed).",
    technique="property-based testing (rapid) of generated concurrent close scenarios with watchdog, goroutine-census and allocator oracles; scripted virtual transport and raw TCP/unix peers for faults"),
+ "C12": dict(
+   text="Fault enumeration x generated follow-ups: 19 scenarios each provoke one API error outcome (TLS listener without config / without certificate, address in use, Listen twice, refused synchronous dial, bad address, unknown scheme, garbage or truncated handshake from raw peers, pipes rejected by the Attaching hook on the listener and on the dialer side, protocol refusal, connections lost right after attach, receive/send timeout, no peers, protocol-state error, closed listener/dialer) on the transports that can produce it; then 3-8 generated calls on the same listener/dialer and its socket (option get/set with good and bad values, Address, Send/Recv with deadlines, sibling endpoints) each run under a 2 s watchdog; then the cause is corrected and the SAME object is retried (supply the TLS config, free the port, start the listener) and a message round trip proves the object works; after rejected or lost connections a fresh well-behaved peer must get through.",
+   note="Reaches the error paths in this catalogue only; the statement's universal claim over every lock-to-return path would need static analysis, which is outside this technique and not used. Hangs are decided by a 2 s watchdog.",
+   technique="property-based fault enumeration (rapid): provoked API errors followed by generated call sequences under a watchdog, with correct-and-retry and round-trip liveness oracles"),
 }
 
 ALL = ["C%02d" % i for i in range(1, 21)]
